@@ -469,6 +469,50 @@ class Fn:
                 self.assigned(c, acc)
         return acc
 
+    def local_ids(self):
+        if getattr(self, "_local_ids", None) is None:
+            ids = set()
+
+            def walk(x):
+                if x.get("kind") in ("VarDecl", "ParmVarDecl") and "id" in x:
+                    ids.add(x["id"])
+                for c in x.get("inner", []):
+                    if isinstance(c, dict):
+                        walk(c)
+            walk(self.node)
+            self._local_ids = ids
+        return self._local_ids
+
+    def add_local_ids(self, node):
+        ids = self.local_ids()
+
+        def walk(x):
+            if x.get("kind") in ("VarDecl", "ParmVarDecl") and "id" in x:
+                ids.add(x["id"])
+            for c in x.get("inner", []):
+                if isinstance(c, dict):
+                    walk(c)
+        walk(node)
+
+    def check_global_write(self, lhs):
+        """a store whose target is an object declared outside the function must be one of the results the
+        function is translated with; otherwise the effect would be dropped silently"""
+        x = lhs
+        while x.get("kind") in ("ParenExpr", "ImplicitCastExpr", "CStyleCastExpr", "MemberExpr", "ArraySubscriptExpr"):
+            if x.get("kind") == "MemberExpr" and x.get("isArrow"):
+                return                      # through a pointer: the pointee is accounted for by the caller's naming
+            x = x["inner"][0]
+        if x.get("kind") == "UnaryOperator" and x.get("opcode") == "*":
+            return
+        if x.get("kind") != "DeclRefExpr":
+            return
+        rd = x.get("referencedDecl", {})
+        if rd.get("kind") != "VarDecl" or rd.get("id") in self.local_ids():
+            return
+        nm = rd.get("name")
+        if not any(o == nm or o.startswith(nm + "_") for o in getattr(self, "outs", [])):
+            raise Unsupported("the function writes the global %s, which is not among its results" % nm)
+
     def lval_base(self, n):
         k = n["kind"]
         if k == "ParenExpr":
@@ -722,6 +766,7 @@ class Fn:
                     raise Unsupported("pointer assignment")
                 self.ptrs[pn] = (self.ptrs[pn][0], self.ptrs[pn][1] + (v if n["opcode"] == "+=" else -v))
                 return self.S(rest, k)
+            self.check_global_write(n["inner"][0])
             rhs = self.E(n["inner"][1])        # right operand first: `*p++ = *q++` is not in the subset
             cur0 = None
             if n["opcode"] != "=" and strip(n["inner"][0]).get("kind") == "ArraySubscriptExpr":
@@ -751,6 +796,7 @@ class Fn:
                 raise Unsupported("assignment to char pointer")
             return self.assign(tgt, wrap(rhs, ty)) + self.S(rest, k)
         if kind == "UnaryOperator" and n["opcode"] in ("++", "--"):
+            self.check_global_write(n["inner"][0])
             if n["inner"][0].get("kind") == "DeclRefExpr" and self.lval_name(n["inner"][0]) in self.ptrs:
                 pn = self.lval_name(n["inner"][0])
                 self.ptrs[pn] = (self.ptrs[pn][0], self.ptrs[pn][1] + (1 if n["opcode"] == "++" else -1))
@@ -903,6 +949,8 @@ class Fn:
             f = self.lval_name(n["inner"][0])
             if f in ("assert", "__assert_fail"):
                 return self.S(rest, k)
+            if f in ("memset", "memcpy"):
+                self.check_global_write(strip(n["inner"][1]))
             if f == "memset" and self.const_of(n["inner"][2]) == 0 and n["inner"][3].get("kind") == "UnaryExprOrTypeTraitExpr":
                 # memset(obj, 0, sizeof(obj)): every cell of the list becomes 0
                 name = self.lval_name(n["inner"][1])
@@ -961,6 +1009,7 @@ class Fn:
         """the body of a small static function, in place: pointer parameters are bound to what they point to"""
         f = self.lval_name(call["inner"][0])
         node = ast_of(self.repo, INLINE[f], f)
+        self.add_local_ids(node)
         params = [p for p in node["inner"] if p.get("kind") == "ParmVarDecl"]
         args = call["inner"][1:]
         out = ""
@@ -1800,6 +1849,7 @@ class ApiFn(Fn):
         if kind == "BinaryOperator" and n.get("opcode") == "=" and \
                 "polyseed_dependency" in n.get("type", {}).get("qualType", "") and "*" not in n.get("type", {}).get("qualType", ""):
             # struct assignment of the dependency table: field by field
+            self.check_global_write(n["inner"][0])
             lhs = self.lval_name(strip(n["inner"][0]))
             r0 = strip(n["inner"][1])
             if r0.get("kind") == "UnaryOperator" and r0.get("opcode") == "*":
@@ -1925,6 +1975,7 @@ class ApiFn(Fn):
     def inline_api(self, call, kret):
         f = self.lval_name(call["inner"][0])
         node = ast_of(self.repo, API_INLINE[f], f)
+        self.add_local_ids(node)
         params = [p for p in node["inner"] if p.get("kind") == "ParmVarDecl"]
         args = call["inner"][1:]
         out = ""
